@@ -306,9 +306,12 @@ def check(prog, rep, tier):
         if isinstance(n, ast.Assign) and isinstance(n.targets[0], ast.Attribute) and \
                 n.targets[0].attr in ('adj_rib_in', 'adj_rib_out'):
             v_ = n.value
-            fresh = isinstance(v_, (ast.Dict, ast.DictComp)) or (isinstance(v_, ast.Call) and src_of(v_.func) == 'dict'
-                                                                and not v_.args)
-            if not fresh:
+            # not fresh: a plain alias, a (shallow) copy, or dict(<existing table>)
+            alias = isinstance(v_, ast.Name) or isinstance(v_, ast.Attribute)
+            copied = isinstance(v_, ast.Call) and (
+                (isinstance(v_.func, ast.Attribute) and v_.func.attr in ('copy',)) or
+                (src_of(v_.func) in ('dict', 'copy.copy') and len(v_.args) == 1 and isinstance(v_.args[0], (ast.Name, ast.Attribute))))
+            if alias or copied:
                 shared.append(n)
     if shared:
         rep.bad('R19.b', 'init_rib', file=ir.file, line=shared[0].lineno, func=ir.qualname,
